@@ -27,6 +27,8 @@ template Graph::Graph(RenderType, const CompositeAdjactor<Graph, Graph>&);
 template Graph::Graph(RenderType, const Graph&, const CompositeAdjactor<Graph, Graph>&);
 template Graph::Graph(RenderType, const Geometry::IndexSet<4>&);
 template Graph::Graph(RenderType, const Geometry::IndexSet<4>&, const Graph&);
+template DynamicGraph::DynamicGraph(RenderType, const Graph&);
+template DynamicGraph::DynamicGraph(RenderType, const Graph&, const Graph&);
 template void Permutation::apply<float>(float*, bool) const;
 template void Permutation::apply<float, double>(float*, const double*, bool) const;
 #endif
